@@ -378,6 +378,10 @@ def check(case, res):
     m = case.meta
     st = res["steps"]
     kind = m["kind"]
+    if kind == "forall" and "prog" in m and "m" in m:
+        # the read-only lock on the iterated table while the loop runs (programs and oracle shared with C09)
+        from . import c09
+        return c09.check(case, res)
     if kind in ("hdr", "rng", "lit", "forall", "once"):
         k = len(st) - 6
         run, out, dump, prun, pout, pdump = st[k], text(st[k + 1]), st[k + 2], st[k + 3], text(st[k + 4]), st[k + 5]
@@ -494,6 +498,8 @@ def run(tier):
     total.merge(explore_gcc("%s-%s-headers" % (PROP, tier), header_gen(tier), check, chunk=200, deadline=deadline))
     total.merge(explore("%s-%s-ifchains" % (PROP, tier), ifchain_gen(tier), check, chunk=200, deadline=deadline))
     total.merge(explore("%s-%s-stray" % (PROP, tier), stray_gen(tier), check, chunk=20, deadline=deadline))
+    from . import c09
+    total.merge(explore("%s-%s-lock" % (PROP, tier), c09.forall_gen(tier), check, chunk=50, deadline=deadline))
     total.merge(explore("%s-%s-nesting" % (PROP, tier), nest_gen(tier), check, chunk=200, deadline=deadline))
     rule = ("(a) every for header over first/limit in {MIN, MIN+1, -2..2, MAX-1, MAX, null} x step in {absent, null, MIN, -1, 0, 1, 2, MAX} x "
             "{auto, asc, desc}; every short range (|limit-first| <= 3, steps 1..3) run to completion near 0, INT64_MAX and INT64_MIN, with bodies "
